@@ -55,7 +55,7 @@ class CaptureClient:
         if kind == 'RUNNING' and self.hb_go is not None and self.hb_go.is_set():
             self.in_running.set()
             import time as _t
-            _t.sleep(0.004)        # a slow backend: the heartbeat is inside emit() while the main thread ends the run
+            _t.sleep(getattr(self, 'slow_s', 0.004))        # a slow backend: the heartbeat is inside emit() while the main thread ends the run
         with self.lock:
             self.events.append((kind, event.run.runId))
 
@@ -146,7 +146,7 @@ def make_filter_class(script, rec, w=None, meta=None):
     return Scripted
 
 
-def run_script(script, with_lineage=True, beats=0, race=False):
+def run_script(script, with_lineage=True, beats=0, race=False, slow=False):
     """-> dict(trace, result, stop_set, open_sockets, announced, events)"""
     rec = []
     w = LifeWorld()
@@ -179,7 +179,9 @@ def run_script(script, with_lineage=True, beats=0, race=False):
         of_mq.MQ.send_exit_msg = send_exit_msg
         of_filter.time = fake_time
         if with_lineage:
-            emitter = OpenFilterLineage(client=cap, interval=3600)
+            # slow=True: a backend that takes longer than one heartbeat interval to accept an event (the terminal event waits for it)
+            emitter = OpenFilterLineage(client=cap, interval=0.02 if slow else 3600)
+            cap.slow_s = 0.08 if slow else 0.004
             if beats or race:
                 # force `beats` extra RUNNING heartbeats, then block like a long interval; with race=True one more
                 # heartbeat pass is released exactly when the main thread starts ending the run, and that RUNNING
